@@ -16,11 +16,14 @@ pub struct St {
     pub calls: Cell<u32>,
     pub last: Cell<u8>,
     pub dig: Cell<u64>,
+    /// drop-counted member: a second destruction of the implementor (or of a bitwise copy of it) fails
+    /// inside the harness
+    pub guard: nd::obs::Pay,
 }
 
 impl Nd for St {
     fn nd() -> St {
-        St { val: nd::any(), calls: Cell::new(0), last: Cell::new(0), dig: Cell::new(nd::any()) }
+        St { val: nd::any(), calls: Cell::new(0), last: Cell::new(0), dig: Cell::new(nd::any()), guard: nd::obs::Pay::new(0) }
     }
 }
 
